@@ -505,9 +505,11 @@ class DiscriminatedUnionUnpackerBuilder(AbstractUnpackerBuilder):
             )
             with lines.indent():
                 spec.builder.ensure_object_imported(spec.builder.__class__)
+                # the variant gets its own default method: a call dialect is
+                # handed to it as an argument and dispatched by that method
                 lines.append(
                     "CodeBuilder(variant, "
-                    "dialect=_dialect, "
+                    "dialect=None, "
                     f"format_name={repr(spec.builder.format_name)}, "
                     "default_dialect=_default_dialect)"
                     ".add_unpack_method()"
